@@ -3,21 +3,30 @@ import json, os
 import vlib
 
 MC = """SPECIFICATION Spec
-CONSTANTS Fields = {{"a","b","c"}} MaxUpdates = {upd} Rule = "{rule}"
+CONSTANTS Fields = {fields} MaxUpdates = {upd} MaxPeer = {peer} Rule = "{rule}"
 VIEW view
 {body}
 CHECK_DEADLOCK FALSE
 """
 
+F3 = '{"a","b","c"}'
+
 def prepare(run, thorough):
-    run.tlc("Crypto.tla", "mc.cfg", workers=4, timeout=900, cfg_text=MC.format(upd=3 if thorough else 2, rule="specified", body="INVARIANTS NoPlainSecret PlainStaysPlain"), label="MC_Crypto(specified)")
-    st = run.tlc("Crypto.tla", "mc_coded.cfg", workers=2, timeout=300, cfg_text=MC.format(upd=1, rule="coded", body="INVARIANTS NoPlainSecret"),
+    run.tlc("Crypto.tla", "mc.cfg", workers=4, timeout=900, cfg_text=MC.format(fields=F3, peer=1, upd=3 if thorough else 2, rule="specified", body="INVARIANTS NoPlainSecret PlainStaysPlain"), label="MC_Crypto(specified)")
+    st = run.tlc("Crypto.tla", "mc_coded.cfg", workers=2, timeout=300, cfg_text=MC.format(fields=F3, peer=0, upd=1, rule="coded", body="INVARIANTS NoPlainSecret"),
                  expect_violation=True, label="MC_Crypto(coded rule: expected refutation)")
     if not st["violated"]:
         raise vlib.Infra("the model of the coded inheritance rule no longer refutes NoPlainSecret (vacuous model)")
     out = os.path.join(run.tmp, "crypto.ndjson")
     run.tlc("Crypto_gen.tla", "gen.cfg", workers=1, timeout=900, env={"VERIF_OUT": out},
-            cfg_text=MC.format(upd=3 if thorough else 2, rule="specified", body="ACTION_CONSTRAINT ExportLeaves"), label="GEN_Crypto(all complete behaviours)")
+            cfg_text=MC.format(fields=F3, peer=0, upd=3 if thorough else 2, rule="specified", body="ACTION_CONSTRAINT ExportLeaves"), label="GEN_Crypto(all complete behaviours)")
+    # behaviours with a write by a key-less peer merged by the owner (two fields, so that the table stays small)
+    outp = os.path.join(run.tmp, "crypto-peer.ndjson")
+    run.tlc("Crypto_gen.tla", "genp.cfg", workers=1, timeout=900, env={"VERIF_OUT": outp},
+            cfg_text=MC.format(fields='{"a","b"}', peer=1, upd=2, rule="specified", body="ACTION_CONSTRAINT ExportPeerLeaves"), label="GEN_Crypto(behaviours with a key-less peer write)")
+    if os.path.exists(outp):
+        with open(out, "a") as f:
+            f.write(open(outp).read())
     if not os.path.exists(out) or not os.path.exists(out + ".sig"):
         raise vlib.Infra("Crypto_gen exported nothing")
     return out
